@@ -27,6 +27,7 @@ const (
 	kLeaf = iota
 	kPStruct
 	kSliceStruct
+	kStruct // a struct by value: only inside elements of slices of structs (T0 itself is pointerified)
 )
 
 type choice struct {
@@ -182,6 +183,9 @@ func (m *modeler) fromStruct(t reflect.Type, prefix []string) []*mfield {
 			f.kind = kSliceStruct
 			f.rtype = ft
 			f.children = m.fromStruct(ft.Elem(), nil)
+		case isPlainStruct(ft):
+			f.kind = kStruct
+			f.children = m.fromStruct(ft, f.origin)
 		default:
 			f.kind = kLeaf
 			f.rtype = ft
@@ -211,7 +215,7 @@ func (m *modeler) apply(sp ManglerSpec, fs []*mfield, top bool) ([]*mfield, erro
 			return nil, err
 		}
 		for _, o := range outs {
-			if recurses(sp.Kind) && (o.kind == kPStruct || o.kind == kSliceStruct) {
+			if recurses(sp.Kind) && (o.kind == kPStruct || o.kind == kSliceStruct || o.kind == kStruct) {
 				ch, err := m.apply(sp, o.children, false)
 				if err != nil {
 					return nil, err
@@ -291,7 +295,7 @@ func (m *modeler) mangleOne(sp ManglerSpec, f *mfield, top bool) ([]*mfield, err
 		return m.flattenStruct(sp, names, m.tagComps(sp.Tag, f), f.children, f.choices), nil
 
 	case "anonflatten":
-		if f.anon && f.kind == kPStruct {
+		if f.anon && (f.kind == kPStruct || f.kind == kStruct) {
 			for _, c := range f.children {
 				c.choices = append(append([]choice{}, f.choices...), c.choices...)
 			}
@@ -626,7 +630,7 @@ func (m *modeler) leaves(fs []*mfield, keyPath []string, choices []choice, out *
 		seen[k] = true
 		kp := append(append([]string{}, keyPath...), k)
 		ch := append(append([]choice{}, choices...), f.choices...)
-		if f.kind == kPStruct {
+		if f.kind == kPStruct || f.kind == kStruct {
 			if err := m.leaves(f.children, kp, ch, out); err != nil {
 				return err
 			}
